@@ -149,7 +149,7 @@ class Run:
 
 def run_scenario(scenario, chooser=None, config_kwargs=None, max_steps=100000,
                  checksum='when_required', fs_fault=None, sample_fs=None, cancel_at=None,
-                 cancel_how='future', keep_tmp=False, collect=None):
+                 cancel_how='future', keep_tmp=False, collect=None, nonthreaded=False):
     """scenario(env) runs in the managed 'user' thread; env has .manager, .client,
     .tmpdir, .I, .sub(...), .future_result(label, future)."""
     from s3transfer.manager import TransferManager, TransferConfig
@@ -174,8 +174,12 @@ def run_scenario(scenario, chooser=None, config_kwargs=None, max_steps=100000,
         cfg = TransferConfig(**(config_kwargs or {}))
         osu = LoggingOSUtils(I, OSUtils(), fs_fault)
         execs = []
-        manager = TransferManager(client, cfg, osutil=osu,
-                                  executor_cls=core.make_executor_cls(sched, execs))
+        if nonthreaded:
+            from s3transfer.futures import NonThreadedExecutor
+            manager = TransferManager(client, cfg, osutil=osu, executor_cls=NonThreadedExecutor)
+        else:
+            manager = TransferManager(client, cfg, osutil=osu,
+                                      executor_cls=core.make_executor_cls(sched, execs))
         I.bind_manager(manager)
 
         class Env:
@@ -194,6 +198,14 @@ def run_scenario(scenario, chooser=None, config_kwargs=None, max_steps=100000,
             try:
                 v = fut.result()
                 run.results[label] = ('ok', v)
+            except core.Killed:
+                raise
+            except KeyboardInterrupt as e:
+                # Ctrl-C delivered to this very call is the caller's interrupt; only a
+                # KeyboardInterrupt that the transfer STORED is the transfer's outcome
+                if getattr(fut, '_coordinator', None) is None or fut._coordinator.exception is not e:
+                    raise
+                run.results[label] = ('raise', type(e).__name__, str(e)[:100])
             except Exception as e:    # noqa
                 run.results[label] = ('raise', type(e).__name__, str(e)[:100])
             I.log('user_result', label=label, outcome=run.results[label][0],
